@@ -1,15 +1,23 @@
 _JOBS = ["src/base/AsyncJob.cc", "src/base/AsyncCall.cc", "src/base/AsyncCallQueue.cc", "src/base/AsyncCallList.cc", "src/base/CodeContext.cc",
          "src/base/InstanceId.cc", "src/cbdata.cc"]
-_U = SBUF + ["src/BodyPipe.cc", "src/MemBuf.cc"] + _JOBS
+_HDR = ["src/HttpHeader.cc", "src/HttpHeaderTools.cc", "src/http/RegisteredHeaders.cc", "src/http/ContentLengthInterpreter.cc",
+        "src/http/one/Parser.cc", "src/String.cc", "src/StrList.cc", "src/MemBuf.cc", "src/mime_header.cc", "src/SquidConfig.cc",
+        "src/ip/Address.cc", "src/helper/ChildConfig.cc", "lib/util.cc", "compat/xstring.cc"]
+_REQ = ["src/HttpRequest.cc", "src/http/Message.cc", "src/anyp/Uri.cc", "src/anyp/UriScheme.cc", "src/anyp/ProtocolType.cc", "src/http/RequestMethod.cc",
+        "src/http/MethodType.cc", "src/log/access_log.cc", "src/MasterXaction.cc", "src/base/Stopwatch.cc"]
+_U = TOK + ["src/BodyPipe.cc"] + _JOBS + _HDR + _REQ + ["src/http.cc", "src/clients/Client.cc", "src/adaptation/Initiator.cc", "src/CommCalls.cc",
+            "src/comm/Connection.cc", "src/base/JobWait.cc", "src/http/one/TeChunkedParser.cc", "src/http/one/Tokenizer.cc"]
 _e = lambda n, b, r, **kw: dict(name=n, bounds=b, reach=list(r), **dict(dict(sample_every=97, max_samples=3), **kw))
 SPEC = dict(
-    harness="C02_bodypipe.cc", units=_U,
+    harness="C02_bodypipe.cc", units=_U, unit_flags={"compat/xstring.cc": ["-Dxstrdup=vf_unused_squid_xstrdup"]},
     scope="kernel",
     scope_note="kernel decided: ...; gap: ...",
     entries=dict(
         quick=[
             _e("c02_pipe_cl", "x", ("all-relayed", "aborted", "in-progress", "full")),
             _e("c02_pipe_chunked", "x", ("all-relayed", "aborted", "in-progress", "full")),
+            _e("c02_relay_cl", "x", ("relayed", "aborted", "in-progress", "write-error")),
+            _e("c02_relay_chunked", "x", ("relayed", "aborted", "in-progress", "write-error")),
         ],
         thorough=[
             _e("c02_pipe_cl", "x", ("all-relayed", "aborted", "in-progress", "full")),
